@@ -6,6 +6,7 @@
   any tree shape, depth and recursion pattern). Helper lemmas live in `Cobweb.Proofs.*`.
 -/
 import Cobweb.Proofs.CtlStep
+import Cobweb.Proofs.Counts
 
 namespace Cobweb.C02
 
@@ -75,6 +76,50 @@ theorem complete_at_quiescence (hc : Ctl s0) (hr : Reach p h s0 s) (hq : s.stack
       have := c.buffered b (by rw [hb]; simp)
       rw [hq] at this; cases this
   · apply c.counter.mpr; rw [hq]; rfl
+
+/-- **Exactly once, for every execution** (event level). Let `#e` be the number of occurrences of the runner event `e`
+    in the trace of a quiescent state reachable from the empty world. Then for every system `sys`:
+    * `#applied = #enter + #abortNoEntity + #abortNoStorage + #replay`: every arrival of a command at the runner is
+      either a first arrival or the replay of a postponed one, and every first arrival (`#applied − #replay` of them) ended
+      in exactly one of: the system ran (`enter`), or the target was gone (one of the two aborts);
+    * `#postponed = #replay`: every postponed command has been replayed, exactly once;
+    * `#enter = #exit`: every run that started has finished, with everything it caused;
+    * `abortRoot` and `discard` never occur: no command is dropped because its callback is missing. -/
+theorem exactly_once_counts (hr : Reach p h ({} : St) s) (hq : s.stack = []) (sys : Nat) :
+    nE (.applied sys) s = nE (.enter sys) s + nE (.abortNoEntity sys) s + nE (.abortNoStorage sys) s + nE (.replay sys) s ∧
+    nE (.postponed sys) s = nE (.replay sys) s ∧
+    nE (.enter sys) s = nE (.exit sys) s ∧
+    nE (.abortRoot sys) s = 0 ∧ nE (.discard sys) s = 0 := by
+  have c := cnt_reach p h cnt_default hr
+  have nb := nobad_reach p h ctl_default nobad_default hr
+  have hbuf := (complete_at_quiescence p h ctl_default hr hq).1
+  have z1 := nE_zero_of_nobad nb (.abortRoot sys) rfl
+  have z2 := nE_zero_of_nobad nb (.discard sys) rfl
+  have a := c.applied sys
+  have b := c.postponed sys
+  have e := c.entered sys
+  rw [hq] at a b e
+  rw [hbuf] at b
+  simp only [sumF_nil, bcount_nil] at a b e
+  refine ⟨by omega, by omega, by omega, z1, z2⟩
+
+/-- The same balances in the middle of a tree: what is not yet accounted for is exactly what is still pending on the
+    control stack (`runnerLookup` frames, `afterBody` frames) and in the postponed queue / replay loops. -/
+theorem counts_mid_tree (hr : Reach p h ({} : St) s) : Cnt s := cnt_reach p h cnt_default hr
+
+/-- Non-vacuity of `exactly_once_counts`: a system that re-runs itself once from its first body. The inner command is
+    postponed and replayed: three arrivals at the runner, two runs, one postponement, one replay; the tree is complete. -/
+def demoProg : Prog := fun sys i s => if i = 0 ∧ (s.info sys).nruns = 1 then some (.run sys) else none
+def demoHist : Hist :=
+  { op := fun t _ => if t = 0 then some .acts else none,
+    act := fun _ i _ => match i with | 0 => some (.spawnSys 0 false) | 1 => some (.run 0) | _ => none }
+
+example : (exec demoProg demoHist 80 {}).stack = [] ∧
+    nE (.applied 0) (exec demoProg demoHist 80 {}) = 3 ∧ nE (.enter 0) (exec demoProg demoHist 80 {}) = 2 ∧
+    nE (.postponed 0) (exec demoProg demoHist 80 {}) = 1 ∧ nE (.replay 0) (exec demoProg demoHist 80 {}) = 1 ∧
+    nE (.exit 0) (exec demoProg demoHist 80 {}) = 2 := by decide
+
+example : Reach demoProg demoHist ({} : St) (exec demoProg demoHist 80 {}) := reach_exec _ _ _ _
 
 /-- Non-vacuity: the empty world satisfies the hypothesis, and so does every state reachable from it. -/
 example : Ctl ({} : St) := ctl_default
